@@ -110,7 +110,7 @@ PROPS = {
              "Array1, SpyOut, Vec<Option<f64>>, polars) x {returned, caller buffer} x 41 rolling entry points, plus vdiff / vpct_change / "
              "vrank / vpartition / varg_partition / vquantile / winsorize and 10 aggregations through titer() on every backend; reference "
              "cell Vec->Vec returned; equality bit for bit after decoding the null encoding. Accessor coherence: len, get(i) i<len+2, "
-             "uget, titer, titer().rev(), slice(a,b) for all a<=b<=len, try_as_slice when offered. distinct = (function, cell, path, "
+             "uget, vget / uvget, titer, titer().rev(), to_opt_iter, opt_iter_cast, iter_cast, slice(a,b) for all a<=b<=len, try_as_slice when offered. distinct = (function, cell, path, "
              "len, window, min_periods) with a non-null output / (accessor suite, backend, len)",
     ),
     "C08": dict(
